@@ -17,6 +17,7 @@ type StreamSpec struct {
 	ClientBlocked bool `json:"client_blocked"` // a client goroutine is blocked in ReadMessage at the event
 	Warm          int  `json:"warm"`           // echo rounds before the event
 	InFlight      bool `json:"in_flight"`      // a client message is written right before the event, its echo not awaited
+	BadWrite      bool `json:"bad_write,omitempty"` // before the event the client writes a value the body codec cannot encode (the write fails)
 }
 
 // Case is streams (plus an optional gated unary call) on one connection and one event.
@@ -57,6 +58,7 @@ func gen(t *rapid.T) Case {
 			ClientBlocked: rapid.Bool().Draw(t, "client_blocked"),
 			Warm:          rapid.IntRange(0, 3).Draw(t, "warm"),
 			InFlight:      rapid.IntRange(0, 3).Draw(t, "in_flight") == 0,
+			BadWrite:      rapid.IntRange(0, 3).Draw(t, "bad_write") == 0,
 		})
 	}
 	c.Unary = !c.M.SrvPipelining && rapid.Bool().Draw(t, "unary")
@@ -76,11 +78,11 @@ func enum(tier string, yield func(Case)) {
 	}
 	for _, l := range []lm{{"frame", false}, {"bytes", false}, {"unix", false}, {"unix", true}} {
 		for _, ev := range events[l.link] {
-			for pat := 0; pat < 3; pat++ {
+			for pat := 0; pat < 4; pat++ {
 				for _, direct := range []bool{false, true} {
 					for _, pipe := range []bool{false, true} {
 						c := Case{M: kit.Modes{Enc: "default", Link: l.link, Poll: l.poll, SrvDirect: direct, CliDirect: direct, SrvPipelining: pipe}, Event: ev, Target: 0}
-						c.Streams = []StreamSpec{{ClientBlocked: pat != 1, Warm: 1, InFlight: pat == 2}, {ClientBlocked: pat == 1, Warm: 0}}
+						c.Streams = []StreamSpec{{ClientBlocked: pat != 1, Warm: 1, InFlight: pat == 2, BadWrite: pat == 3}, {ClientBlocked: pat == 1, Warm: 0}}
 						c.Unary = !pipe
 						if ev == "cut" {
 							for _, ce := range []string{"eof", "io"} {
@@ -184,6 +186,17 @@ func run(c Case) kit.Outcome {
 			case <-time.After(bound):
 				return kit.Undecided("warm echo %d/%d did not arrive", i, k)
 			}
+		}
+	}
+	// a failed stream write (the value cannot be encoded by the bytes codec) must not exempt the stream
+	// from being released later
+	badWrites := 0
+	for i, sp := range c.Streams {
+		if sp.BadWrite {
+			bad := "not a *[]byte"
+			werr := streams[i].WriteMessage(&bad)
+			h("stream %d: WriteMessage of an unencodable value -> %v", i, werr)
+			badWrites++
 		}
 	}
 	// the gated unary call
@@ -406,6 +419,9 @@ func run(c Case) kit.Outcome {
 	}
 	if c.Unary {
 		out.Classes = append(out.Classes, "unary-executing")
+	}
+	if badWrites > 0 {
+		out.Classes = append(out.Classes, "failed-stream-write-before-event")
 	}
 	return out
 }
